@@ -11,6 +11,21 @@
 //                             made through a chosen typed entry point of the API, then checkExpectations(): "p <1 pass|0 fail>"
 //                             E, A = <entry>.<kind>:<n>, entry = ovl (C++ withParameter overload) | exp (C++ explicit
 //                             with…IntParameter) | c (C mock_c()->…->with…IntParameters), kind = int uint long ulong llong ullong
+//        eqapix <E> <A>    -> like eqapi for ALL parameter kinds: E, A = <entry>.<value token>; value tokens as below (bool, dbl with tolerance
+//                             [expectation side only], dbld, str, mem, ptr, cptr, fptr and the six integer kinds); the C interface takes an
+//                             `int` for a bool: c.bool:<any int>.  "p <1 pass|0 fail>"
+//        dset <cpp|c> <name> <A> -> the data store of mock(): mock().setData(name, <typed value>) / setDataObject / setDataConstObject, or the C
+//                             functions mock_c()->set…Data; A = bool (C: any int) int uint dbld str ptr cptr fptr obj cobj.  A name that is
+//                             already present is re-written IN PLACE.
+//        dget <name>       -> v = mock().getData(name): "t <hex of type>" "cmp <comparator id> <copier id>", then the six integer getters
+//                             on it, each in a fresh test (as `get`)
+//        deq <n1> <n2>     -> "r <getData(n1).equals(getData(n2))> <the other way round>";  dhas <name> -> "has <0|1>"
+//        dinstall <Type> <id> / dcopier <Type> <id> / dremove / dclear     mock().installComparator / installCopier /
+//                             removeAllComparatorsAndCopiers / clear (eqapi, eqapix and getret also clear the data store)
+//        cell <A1> … <An>  -> ONE MockNamedValue object receives the setters of A1 … An in order (default repository as set by rdefault):
+//                             "t <hex of type>" "size <getSize>" "cmp <comparator id> <copier id>" and "r <v.equals(f)> <f.equals(v)>" with f a
+//                             fresh value built from An alone (under the default repository in force at the end); a token def:<r|none>
+//                             between two values switches the default repository (and leaves it switched)
 //        getret <V|none> <d> -> a return value V = <kind>:<n> is stored with andReturnValue(<typed value>) (none: no return value), the call
 //                             is made, and EVERY integer reader reads it back, each in a fresh test: MockActualCall::return…Value(),
 //                             return…ValueOrDefault(d), mock().…ReturnValue(), mock().return…ValueOrDefault(d):
@@ -304,6 +319,187 @@ void eqapi_body() {
     mock().checkExpectations();
 }
 
+// ---- eqapix: expectation and actual call through typed API entry points, every parameter kind
+struct XVal { std::string api, kind, canon; long long s; unsigned long long u; double d, t; bool null; std::string str; std::vector<unsigned char> mem; int k; };
+bool parse_xval(const std::string& tok, bool expected, XVal& v) {
+    size_t d = tok.find('.');
+    if (d == std::string::npos) return false;
+    v.api = tok.substr(0, d);
+    if (v.api != "ovl" && v.api != "exp" && v.api != "c") return false;
+    std::string val = tok.substr(d + 1);
+    size_t c = val.find(':');
+    if (c == std::string::npos) return false;
+    v.kind = val.substr(0, c);
+    std::string rest = val.substr(c + 1);
+    v.s = 0; v.u = 0; v.d = 0; v.t = 0; v.null = false; v.k = 0; v.str.clear(); v.mem.clear();
+    char buf[96];
+    if (v.kind == "int" || v.kind == "uint" || v.kind == "long" || v.kind == "ulong" || v.kind == "llong" || v.kind == "ullong") {
+        ApiVal a;
+        if (!parse_apival(tok, a)) return false;
+        v.s = a.s; v.u = a.u; v.canon = a.canon; return true;
+    }
+    if (v.kind == "bool") {
+        if (v.api == "c") { if (!parse_signed(rest, INT_MIN, INT_MAX, v.s)) return false; }
+        else { if (rest != "0" && rest != "1") return false; v.s = rest == "1"; }
+        snprintf(buf, sizeof buf, "%lld", v.s); v.canon = v.api + ".bool:" + buf; return true;
+    }
+    if (v.kind == "dbl") {
+        if (!expected) return false;                 // no tolerance argument on the actual side
+        size_t c2 = rest.find(':');
+        if (c2 == std::string::npos) return false;
+        if (!parse_bits(rest.substr(0, c2), v.d) || !parse_bits(rest.substr(c2 + 1), v.t)) return false;
+        v.canon = v.api + ".dbl:" + lower(rest); return true;
+    }
+    if (v.kind == "dbld") { if (!parse_bits(rest, v.d)) return false; v.canon = v.api + ".dbld:" + lower(rest); return true; }
+    if (v.kind == "str") {
+        if (rest == "null") { v.null = true; v.canon = v.api + ".str:null"; return true; }
+        if (!is_hex(rest)) return false;
+        v.str = vh::unhex(rest); v.canon = v.api + ".str:" + lower(rest); return true;
+    }
+    if (v.kind == "mem") {
+        if (!is_hex(rest)) return false;
+        std::string b = vh::unhex(rest);
+        v.mem.assign(b.begin(), b.end()); v.mem.push_back(0xEE);
+        v.u = b.size(); v.canon = v.api + ".mem:" + lower(rest); return true;
+    }
+    if (v.kind == "ptr" || v.kind == "cptr") { if (!parse_index(rest, POOL, v.k)) return false; snprintf(buf, sizeof buf, ":%d", v.k); v.canon = v.api + "." + v.kind + buf; return true; }
+    if (v.kind == "fptr") { if (!parse_index(rest, NFN - 1, v.k)) return false; snprintf(buf, sizeof buf, ":%d", v.k); v.canon = v.api + ".fptr" + buf; return true; }
+    return false;
+}
+XVal g_xe, g_xa;
+// C++ side: T = MockExpectedCall or MockActualCall
+template <class T> void cpp_param(T& x, const XVal& v, bool with_tolerance_allowed) {
+    bool o = v.api == "ovl";
+    void* vp = v.k ? (void*) (g_pool + v.k) : (void*) 0;
+    const char* sp = v.null ? (const char*) 0 : v.str.c_str();
+    if (v.kind == "int") { if (o) x.withParameter("p", (int) v.s); else x.withIntParameter("p", (int) v.s); }
+    else if (v.kind == "uint") { if (o) x.withParameter("p", (unsigned int) v.u); else x.withUnsignedIntParameter("p", (unsigned int) v.u); }
+    else if (v.kind == "long") { if (o) x.withParameter("p", (long int) v.s); else x.withLongIntParameter("p", (long int) v.s); }
+    else if (v.kind == "ulong") { if (o) x.withParameter("p", (unsigned long int) v.u); else x.withUnsignedLongIntParameter("p", (unsigned long int) v.u); }
+    else if (v.kind == "llong") { if (o) x.withParameter("p", (cpputest_longlong) v.s); else x.withLongLongIntParameter("p", (cpputest_longlong) v.s); }
+    else if (v.kind == "ullong") { if (o) x.withParameter("p", (cpputest_ulonglong) v.u); else x.withUnsignedLongLongIntParameter("p", (cpputest_ulonglong) v.u); }
+    else if (v.kind == "bool") { if (o) x.withParameter("p", v.s != 0); else x.withBoolParameter("p", v.s != 0); }
+    else if (v.kind == "dbld") { if (o) x.withParameter("p", v.d); else x.withDoubleParameter("p", v.d); }
+    else if (v.kind == "str") { if (o) x.withParameter("p", sp); else x.withStringParameter("p", sp); }
+    else if (v.kind == "ptr") { if (o) x.withParameter("p", vp); else x.withPointerParameter("p", vp); }
+    else if (v.kind == "cptr") { if (o) x.withParameter("p", (const void*) vp); else x.withConstPointerParameter("p", (const void*) vp); }
+    else if (v.kind == "fptr") { if (o) x.withParameter("p", g_fns[v.k]); else x.withFunctionPointerParameter("p", g_fns[v.k]); }
+    else if (v.kind == "mem") { if (o) x.withParameter("p", (const unsigned char*) &v.mem[0], (size_t) v.u); else x.withMemoryBufferParameter("p", &v.mem[0], (size_t) v.u); }
+    (void) with_tolerance_allowed;
+}
+// C side: T = MockExpectedCall_c or MockActualCall_c
+template <class T> void c_param(T* x, const XVal& v) {
+    void* vp = v.k ? (void*) (g_pool + v.k) : (void*) 0;
+    const char* sp = v.null ? (const char*) 0 : v.str.c_str();
+    if (v.kind == "int") x->withIntParameters("p", (int) v.s);
+    else if (v.kind == "uint") x->withUnsignedIntParameters("p", (unsigned int) v.u);
+    else if (v.kind == "long") x->withLongIntParameters("p", (long int) v.s);
+    else if (v.kind == "ulong") x->withUnsignedLongIntParameters("p", (unsigned long int) v.u);
+    else if (v.kind == "llong") x->withLongLongIntParameters("p", (cpputest_longlong) v.s);
+    else if (v.kind == "ullong") x->withUnsignedLongLongIntParameters("p", (cpputest_ulonglong) v.u);
+    else if (v.kind == "bool") x->withBoolParameters("p", (int) v.s);
+    else if (v.kind == "dbld") x->withDoubleParameters("p", v.d);
+    else if (v.kind == "str") x->withStringParameters("p", sp);
+    else if (v.kind == "ptr") x->withPointerParameters("p", vp);
+    else if (v.kind == "cptr") x->withConstPointerParameters("p", (const void*) vp);
+    else if (v.kind == "fptr") x->withFunctionPointerParameters("p", g_fns[v.k]);
+    else if (v.kind == "mem") x->withMemoryBufferParameter("p", &v.mem[0], (size_t) v.u);
+}
+void eqapix_body() {
+    mock().clear();
+    const XVal& e = g_xe; const XVal& a = g_xa;
+    if (e.api == "c") {
+        MockExpectedCall_c* x = mock_c()->expectOneCall("f");
+        if (e.kind == "dbl") x->withDoubleParametersAndTolerance("p", e.d, e.t); else c_param(x, e);
+    }
+    else {
+        MockExpectedCall& x = mock().expectOneCall("f");
+        if (e.kind == "dbl") { if (e.api == "ovl") x.withParameter("p", e.d, e.t); else x.withDoubleParameter("p", e.d, e.t); }
+        else cpp_param(x, e, true);
+    }
+    if (a.api == "c") c_param(mock_c()->actualCall("f"), a);
+    else cpp_param(mock().actualCall("f"), a, false);
+    mock().checkExpectations();
+}
+
+// ---- data store of mock()
+std::string g_dname;
+void dget_body() {
+    g_returned = false;
+    MockNamedValue v = mock().getData(g_dname.c_str());
+    switch (g_which) {
+        case 0: { int r = v.getIntValue(); snprintf(g_result, sizeof g_result, "%d", r); break; }
+        case 1: { unsigned int r = v.getUnsignedIntValue(); snprintf(g_result, sizeof g_result, "%u", r); break; }
+        case 2: { long int r = v.getLongIntValue(); snprintf(g_result, sizeof g_result, "%ld", r); break; }
+        case 3: { unsigned long int r = v.getUnsignedLongIntValue(); snprintf(g_result, sizeof g_result, "%lu", r); break; }
+        case 4: { cpputest_longlong r = v.getLongLongIntValue(); snprintf(g_result, sizeof g_result, "%lld", (long long) r); break; }
+        case 5: { cpputest_ulonglong r = v.getUnsignedLongLongIntValue(); snprintf(g_result, sizeof g_result, "%llu", (unsigned long long) r); break; }
+    }
+    g_returned = true;
+}
+// performs one data write; returns the canonical token or "" (nothing done)
+std::string data_set(const std::string& api, const char* name, const std::string& tok, Store& st) {
+    size_t c = tok.find(':');
+    if (c == std::string::npos) return "";
+    std::string kind = tok.substr(0, c), rest = tok.substr(c + 1);
+    bool C = api == "c";
+    char buf[96]; long long sv; unsigned long long uv; int k; double d;
+    if (kind == "bool") {
+        if (C) { if (!parse_signed(rest, INT_MIN, INT_MAX, sv)) return ""; mock_c()->setBoolData(name, (int) sv); }
+        else { if (rest != "0" && rest != "1") return ""; sv = rest == "1"; mock().setData(name, rest == "1"); }
+        snprintf(buf, sizeof buf, "bool:%lld", sv); return buf;
+    }
+    if (kind == "int") { if (!parse_signed(rest, INT_MIN, INT_MAX, sv)) return ""; if (C) mock_c()->setIntData(name, (int) sv); else mock().setData(name, (int) sv); snprintf(buf, sizeof buf, "int:%d", (int) sv); return buf; }
+    if (kind == "uint") { if (!parse_unsigned(rest, UINT_MAX, uv)) return ""; if (C) mock_c()->setUnsignedIntData(name, (unsigned int) uv); else mock().setData(name, (unsigned int) uv); snprintf(buf, sizeof buf, "uint:%u", (unsigned int) uv); return buf; }
+    if (kind == "dbld") { if (!parse_bits(rest, d)) return ""; if (C) mock_c()->setDoubleData(name, d); else mock().setData(name, d); return "dbld:" + lower(rest); }
+    if (kind == "str") {
+        const char* sp = 0;
+        if (rest != "null") { if (!is_hex(rest)) return ""; st.s = vh::unhex(rest); sp = st.s.c_str(); }
+        if (C) mock_c()->setStringData(name, sp); else mock().setData(name, sp);
+        return rest == "null" ? std::string("str:null") : "str:" + lower(rest);
+    }
+    if (kind == "ptr" || kind == "cptr") {
+        if (!parse_index(rest, POOL, k)) return "";
+        void* vp = k ? (void*) (g_pool + k) : (void*) 0;
+        if (kind == "ptr") { if (C) mock_c()->setPointerData(name, vp); else mock().setData(name, vp); }
+        else { if (C) mock_c()->setConstPointerData(name, (const void*) vp); else mock().setData(name, (const void*) vp); }
+        snprintf(buf, sizeof buf, ":%d", k); return kind + buf;
+    }
+    if (kind == "fptr") { if (!parse_index(rest, NFN - 1, k)) return ""; if (C) mock_c()->setFunctionPointerData(name, g_fns[k]); else mock().setData(name, g_fns[k]); snprintf(buf, sizeof buf, "fptr:%d", k); return buf; }
+    if (kind == "obj" || kind == "cobj") {
+        size_t c2 = rest.find(':');
+        if (c2 == std::string::npos || c2 == 0) return "";
+        std::string type = rest.substr(0, c2);
+        if (!valid_type(type) || type == "MockSupport") return "";
+        if (!parse_index(rest.substr(c2 + 1), POOL, k)) return "";
+        void* vp = k ? (void*) (g_pool + k) : (void*) 0;
+        if (kind == "obj") { if (C) mock_c()->setDataObject(name, type.c_str(), vp); else mock().setDataObject(name, type.c_str(), vp); }
+        else { if (C) mock_c()->setDataConstObject(name, type.c_str(), (const void*) vp); else mock().setDataConstObject(name, type.c_str(), (const void*) vp); }
+        snprintf(buf, sizeof buf, ":%d", k); return kind + ":" + type + buf;
+    }
+    return "";
+}
+bool data_token_ok(const std::string& api, const std::string& tok) {      // same acceptance as data_set, without doing anything
+    size_t c = tok.find(':');
+    if (c == std::string::npos) return false;
+    std::string kind = tok.substr(0, c), rest = tok.substr(c + 1);
+    long long sv; unsigned long long uv; int k; double d;
+    if (kind == "bool") return api == "c" ? parse_signed(rest, INT_MIN, INT_MAX, sv) : (rest == "0" || rest == "1");
+    if (kind == "int") return parse_signed(rest, INT_MIN, INT_MAX, sv);
+    if (kind == "uint") return parse_unsigned(rest, UINT_MAX, uv);
+    if (kind == "dbld") return parse_bits(rest, d);
+    if (kind == "str") return rest == "null" || is_hex(rest);
+    if (kind == "ptr" || kind == "cptr") return parse_index(rest, POOL, k);
+    if (kind == "fptr") return parse_index(rest, NFN - 1, k);
+    if (kind == "obj" || kind == "cobj") {
+        size_t c2 = rest.find(':');
+        if (c2 == std::string::npos || c2 == 0) return false;
+        std::string type = rest.substr(0, c2);
+        return valid_type(type) && type != "MockSupport" && parse_index(rest.substr(c2 + 1), POOL, k);
+    }
+    return false;
+}
+
 // ---- getret: return value stored on the expectation, read back through every integer reader
 ApiVal g_rv; bool g_rv_none = false; int g_rd = 0; int g_reader = 0;
 const char* RET_WORDS[6] = { "Int", "UnsignedInt", "LongInt", "UnsignedLongInt", "LongLongInt", "UnsignedLongLongInt" };
@@ -379,6 +575,8 @@ void run_case(const vh::Case& c) {
     repos[0].installComparator("CmpId", g_cmp2);
     MockNamedValueComparatorsAndCopiersRepository* def = &repos[0];
     MockNamedValue::setDefaultComparatorsAndCopiersRepository(def);
+    mock().clear(); mock().removeAllComparatorsAndCopiers();
+    MockNamedValue::setDefaultComparatorsAndCopiersRepository(def);
     MockNamedValueList list;
     std::map<MockNamedValue*, unsigned long> seq;
     unsigned long next_seq = 1;
@@ -402,6 +600,102 @@ void run_case(const vh::Case& c) {
             mock().clear();
             MockNamedValue::setDefaultComparatorsAndCopiersRepository(def);
             vh::emit("p %d", failures == 0 ? 1 : 0);
+        }
+        else if (w[0] == "eqapix" && w.size() == 3) {
+            if (!parse_xval(w[1], true, g_xe) || !parse_xval(w[2], false, g_xa)) { vh::emit("> skip"); continue; }
+            vh::emit("> eqapix %s %s", g_xe.canon.c_str(), g_xa.canon.c_str());
+            size_t failures = vh::in_fixture(eqapix_body);
+            mock().clear();
+            MockNamedValue::setDefaultComparatorsAndCopiersRepository(def);
+            vh::emit("p %d", failures == 0 ? 1 : 0);
+        }
+        else if (w[0] == "dset" && w.size() == 4) {
+            std::string s1; const char* x = 0;
+            if ((w[1] != "cpp" && w[1] != "c") || !name_arg(w[2], s1, x) || x == 0 || !data_token_ok(w[1], w[3])) { vh::emit("> skip"); continue; }
+            stores.push_back(std::unique_ptr<Store>(new Store()));
+            std::string ca = data_set(w[1], x, w[3], *stores.back());
+            MockNamedValue::setDefaultComparatorsAndCopiersRepository(def);
+            vh::emit("> dset %s %s %s", w[1].c_str(), lower(w[2]).c_str(), ca.c_str());
+        }
+        else if (w[0] == "dget" && w.size() == 2) {
+            std::string s1; const char* x = 0;
+            if (!name_arg(w[1], s1, x) || x == 0) { vh::emit("> skip"); continue; }
+            vh::emit("> dget %s", lower(w[1]).c_str());
+            {
+                MockNamedValue v = mock().getData(x);
+                vh::emit("t %s", shex(v.getType()).c_str());
+                vh::emit("cmp %d %d", cmp_id(v.getComparator()), cop_id(v.getCopier()));
+            }
+            g_dname = x;
+            for (g_which = 0; g_which < 6; g_which++) {
+                g_returned = false;
+                size_t failures = vh::in_fixture(dget_body);
+                if (failures == 0 && g_returned) vh::emit("%s ok %s", GETTERS[g_which], g_result);
+                else if (failures > 0 && !g_returned) vh::emit("%s fail", GETTERS[g_which]);
+                else vh::emit("%s inconsistent failures=%lu returned=%d", GETTERS[g_which], (unsigned long) failures, g_returned ? 1 : 0);
+            }
+            MockNamedValue::setDefaultComparatorsAndCopiersRepository(def);
+        }
+        else if (w[0] == "deq" && w.size() == 3) {
+            std::string s1, s2; const char* x = 0; const char* y = 0;
+            if (!name_arg(w[1], s1, x) || x == 0 || !name_arg(w[2], s2, y) || y == 0) { vh::emit("> skip"); continue; }
+            vh::emit("> deq %s %s", lower(w[1]).c_str(), lower(w[2]).c_str());
+            MockNamedValue a = mock().getData(x), b = mock().getData(y);
+            bool r1 = a.equals(b), r2 = b.equals(a);
+            vh::emit("r %d %d", r1 ? 1 : 0, r2 ? 1 : 0);
+            MockNamedValue::setDefaultComparatorsAndCopiersRepository(def);
+        }
+        else if (w[0] == "dhas" && w.size() == 2) {
+            std::string s1; const char* x = 0;
+            if (!name_arg(w[1], s1, x) || x == 0) { vh::emit("> skip"); continue; }
+            vh::emit("> dhas %s", lower(w[1]).c_str());
+            vh::emit("has %d", mock().hasData(x) ? 1 : 0);
+            MockNamedValue::setDefaultComparatorsAndCopiersRepository(def);
+        }
+        else if ((w[0] == "dinstall" || w[0] == "dcopier") && w.size() == 3) {
+            int id;
+            if (!valid_type(w[1]) || !parse_index(w[2], w[0] == "dinstall" ? 4 : 2, id) || id == 0) { vh::emit("> skip"); continue; }
+            vh::emit("> %s %s %d", w[0].c_str(), w[1].c_str(), id);
+            if (w[0] == "dinstall") mock().installComparator(w[1].c_str(), *g_cmps[id]); else mock().installCopier(w[1].c_str(), *g_cops[id]);
+            MockNamedValue::setDefaultComparatorsAndCopiersRepository(def);
+        }
+        else if (w[0] == "dremove" && w.size() == 1) {
+            vh::emit("> dremove"); mock().removeAllComparatorsAndCopiers();
+            MockNamedValue::setDefaultComparatorsAndCopiersRepository(def);
+        }
+        else if (w[0] == "dclear" && w.size() == 1) {
+            vh::emit("> dclear"); mock().clear();
+            MockNamedValue::setDefaultComparatorsAndCopiersRepository(def);
+        }
+        else if (w[0] == "cell" && w.size() >= 2 && w.size() <= 12) {
+            // value tokens and `def:<r|none>` (switches the default repository before the next setter; it stays switched)
+            MockNamedValue v("cell"), f("fresh");
+            std::vector<std::unique_ptr<Store> > sts;
+            std::string canon; bool ok = true; int r;
+            std::string last;
+            { MockNamedValue probe("probe");
+              for (size_t j = 1; j < w.size() && ok; j++) {
+                  if (w[j].compare(0, 4, "def:") == 0) { if (!(w[j] == "def:none" || parse_index(w[j].substr(4), 3, r))) ok = false; continue; }
+                  Store t; if (build(probe, w[j], t).empty()) ok = false; else last = w[j];
+              } }
+            if (!ok || last.empty() || w[w.size() - 1].compare(0, 4, "def:") == 0) { MockNamedValue::setDefaultComparatorsAndCopiersRepository(def); vh::emit("> skip"); continue; }
+            for (size_t j = 1; j < w.size(); j++) {
+                if (w[j].compare(0, 4, "def:") == 0) {
+                    if (w[j] == "def:none") { def = 0; canon += " def:none"; }
+                    else { parse_index(w[j].substr(4), 3, r); def = &repos[r]; char b[16]; snprintf(b, sizeof b, " def:%d", r); canon += b; }
+                    MockNamedValue::setDefaultComparatorsAndCopiersRepository(def);
+                    continue;
+                }
+                sts.push_back(std::unique_ptr<Store>(new Store()));
+                canon += " " + build(v, w[j], *sts.back());
+            }
+            Store sf; build(f, last, sf);
+            vh::emit("> cell%s", canon.c_str());
+            vh::emit("t %s", shex(v.getType()).c_str());
+            vh::emit("size %lu", (unsigned long) v.getSize());
+            vh::emit("cmp %d %d", cmp_id(v.getComparator()), cop_id(v.getCopier()));
+            bool r1 = v.equals(f), r2 = f.equals(v);
+            vh::emit("r %d %d", r1 ? 1 : 0, r2 ? 1 : 0);
         }
         else if (w[0] == "getret" && w.size() == 3) {
             g_rv_none = (w[1] == "none");
@@ -554,6 +848,7 @@ void run_case(const vh::Case& c) {
         else vh::emit("> skip");
     }
     list.clear();
+    mock().clear(); mock().removeAllComparatorsAndCopiers();
     MockNamedValue::setDefaultComparatorsAndCopiersRepository(0);
 }
 
